@@ -1,5 +1,473 @@
-use crate::common::Ctx;
-pub fn run(_ctx: &Ctx, _replay: Option<&serde_json::Value>) -> i32 {
-    eprintln!("not implemented");
-    2
+//! C05 — function outputs are portable: emitted source reloads to an equivalent function.
+
+use crate::common::*;
+use crate::parse::parse_one;
+use crate::proc::run_blots;
+use crate::tgen::*;
+use blots_core::ast::Expr;
+use blots_core::values::{SerializableValue, Value};
+use serde_json::{Value as J, json};
+
+/// Captured-value configurations: source lines that bind `c` and `d` (and helpers) before `f`.
+fn capture_configs() -> Vec<(&'static str, Vec<&'static str>)> {
+    vec![
+        ("int+closure", vec!["c = 5", "d = n => n + 1"]),
+        ("negative+builtin", vec!["c = -1", "d = abs"]),
+        ("nan+negative-fraction", vec!["c = 0 / 0", "d = -0.5"]),
+        ("infinities", vec!["c = inf", "d = -inf"]),
+        ("strings-quotes", vec!["c = \"s\"", "d = \"it's \" + '\"q\"'"]),
+        ("strings-backslash-newline", vec!["c = \"a\\b\"", "d = \"line\nbreak\""]),
+        ("list+record", vec!["c = [1, \"a\", [2]]", "d = {k: 1, \"a b\": [2], x: 3, [\"q'\" + '\"']: 4}"]),
+        ("closure-with-captures", vec!["k2 = 10", "c = 2", "d = n => n * k2 + c"]),
+        ("null+bool", vec!["c = null", "d = true"]),
+        ("large+fraction", vec!["c = 1e21", "d = 0.1"]),
+        ("negzero+long", vec!["c = -0", "d = 123456789.123"]),
+        ("functions", vec!["c = q => q", "d = [n => n + 1, abs]"]),
+    ]
+}
+
+fn arg_pool(thorough: bool) -> Vec<&'static str> {
+    let mut v = vec!["2", "(-3)", "true", "\"s\"", "[1, 2]", "(n => n + 1)"];
+    if thorough {
+        v.extend(["0.5", "{k: 1}", "null", "abs", "[true, false]"]);
+    }
+    v
+}
+
+/// Replace the generator's positional leaf names by typed leaves.
+fn subst(t: &T) -> T {
+    let m = |n: &str| -> T {
+        match n {
+            "a" | "f" | "m" => T::id("x"),
+            "b" | "i" => T::id("y"),
+            "c" | "g" => T::id("c"),
+            "d" | "j" => T::id("d"),
+            "e" => T::num(2.0),
+            "h" => T::num(1.0),
+            "n" => T::str("s"),
+            other => T::id(other),
+        }
+    };
+    fn go(t: &T, m: &dyn Fn(&str) -> T) -> T {
+        let b = |x: &T| Box::new(go(x, m));
+        match t {
+            T::Id(n) => m(n),
+            T::Num(_) | T::Str(_) | T::Bool(_) | T::Null | T::Inp(_) => t.clone(),
+            T::List(v) => T::List(v.iter().map(|x| go(x, m)).collect()),
+            T::Rec(es) => T::Rec(
+                es.iter()
+                    .map(|e| match e {
+                        RE::Kv(k, v) => RE::Kv(k.clone(), go(v, m)),
+                        RE::Qkv(k, v) => RE::Qkv(k.clone(), go(v, m)),
+                        RE::Dyn(k, v) => RE::Dyn(go(k, m), go(v, m)),
+                        // shorthand `{a, ...}` of the generator: use the captured name
+                        RE::Short(_) => RE::Short("c".into()),
+                        RE::Spread(v) => RE::Spread(go(v, m)),
+                    })
+                    .collect(),
+            ),
+            T::Lam(a, body) => T::Lam(a.clone(), b(body)),
+            T::Cond(x, y, z) => T::Cond(b(x), b(y), b(z)),
+            T::Do(s, r) => T::Do(s.iter().map(|x| go(x, m)).collect(), b(r)),
+            T::Assign(n, v) => T::Assign(n.clone(), b(v)),
+            T::Call(f, a) => T::Call(b(f), a.iter().map(|x| go(x, m)).collect()),
+            T::Index(x, y) => T::Index(b(x), b(y)),
+            T::Field(x, f) => T::Field(b(x), f.clone()),
+            T::Bin(op, x, y) => T::Bin(*op, b(x), b(y)),
+            T::Neg(x) => T::Neg(b(x)),
+            T::Bang(x) => T::Bang(b(x)),
+            T::NotW(x) => T::NotW(b(x)),
+            T::Fact(x) => T::Fact(b(x)),
+            T::Spread(x) => T::Spread(b(x)),
+            T::Output(x) => T::Output(b(x)),
+        }
+    }
+    go(t, &m)
+}
+
+/// Binder-collision kinds: inner binders named like the captured names.
+fn collision_kinds() -> Vec<Kind> {
+    vec![
+        Kind { name: "lam-param-c", slots: vec![SlotKind::Expr], is_expr: true, class: "collision", build: |mut v| T::Lam(vec![LArg::Req("c".into())], Box::new(v.remove(0))) },
+        Kind {
+            name: "lam-param-c-applied",
+            slots: vec![SlotKind::Expr],
+            is_expr: true,
+            class: "collision",
+            build: |mut v| T::Call(Box::new(T::Lam(vec![LArg::Req("c".into())], Box::new(v.remove(0)))), vec![T::num(9.0)]),
+        },
+        Kind {
+            name: "do-shadow-c",
+            slots: vec![SlotKind::Expr],
+            is_expr: true,
+            class: "collision",
+            build: |mut v| T::Do(vec![T::Assign("c".into(), Box::new(v.remove(0)))], Box::new(T::id("c"))),
+        },
+        Kind {
+            name: "do-read-then-shadow-c",
+            slots: vec![SlotKind::Expr],
+            is_expr: true,
+            class: "collision",
+            build: |mut v| {
+                T::Do(
+                    vec![T::Assign("t".into(), Box::new(T::id("c"))), T::Assign("c".into(), Box::new(v.remove(0)))],
+                    Box::new(T::List(vec![T::id("c"), T::id("t")])),
+                )
+            },
+        },
+        Kind {
+            name: "do-shadow-then-lambda",
+            slots: vec![SlotKind::Expr],
+            is_expr: true,
+            class: "collision",
+            build: |mut v| {
+                T::Do(
+                    vec![T::Assign("d".into(), Box::new(v.remove(0)))],
+                    Box::new(T::Call(Box::new(T::Lam(vec![], Box::new(T::List(vec![T::id("c"), T::id("d")])))), vec![])),
+                )
+            },
+        },
+        Kind {
+            name: "rec-shorthand-c",
+            slots: vec![SlotKind::Expr],
+            is_expr: true,
+            class: "collision",
+            build: |mut v| T::Rec(vec![RE::Short("c".into()), RE::Kv("j".into(), v.remove(0))]),
+        },
+        Kind {
+            name: "postfix-on-captured",
+            slots: vec![SlotKind::Expr],
+            is_expr: true,
+            class: "collision",
+            build: |mut v| T::List(vec![T::Fact(Box::new(T::id("c"))), T::Field(Box::new(T::id("d")), "k".into()), T::Index(Box::new(T::id("c")), Box::new(v.remove(0)))]),
+        },
+    ]
+}
+
+struct Case {
+    body: String,
+    class: String,
+    /// syntactic predicate: the body's top-level operator chain (operands written without
+    /// parentheses) contains via / into / where
+    root_pipe: bool,
+}
+
+fn ends_open_t(t: &T) -> bool {
+    match t {
+        T::Lam(..) | T::Cond(..) | T::Assign(..) => true,
+        T::Bin(_, _, r) => ends_open_t(r),
+        T::Neg(x) | T::Bang(x) | T::NotW(x) => ends_open_t(x),
+        _ => false,
+    }
+}
+
+/// Is a binary-operator child written without parentheses under `parent` (by the table of C10)?
+fn bare_operand(parent: blots_core::ast::BinaryOp, child: &T, is_left: bool) -> bool {
+    match child {
+        T::Bin(cop, ..) => {
+            let (pl, pright) = spec_level(parent);
+            let (cl, _) = spec_level(*cop);
+            if cl < pl {
+                return false;
+            }
+            if cl == pl && (is_left == pright) {
+                return false;
+            }
+            !(is_left && ends_open_t(child))
+        }
+        _ => false,
+    }
+}
+
+fn root_pipe(t: &T) -> bool {
+    use blots_core::ast::BinaryOp::*;
+    match t {
+        T::Bin(op, l, r) => {
+            matches!(op, Via | Into | Where) || (bare_operand(*op, l, true) && root_pipe(l)) || (bare_operand(*op, r, false) && root_pipe(r))
+        }
+        _ => false,
+    }
+}
+
+/// Emit `f` from a session the way outputs are written, returning the JSON text.
+fn emit(sess: &Session, name: &str) -> Result<String, String> {
+    let v: Value = sess.env.get(name).ok_or("function not bound")?;
+    let sv = SerializableValue::from_value(&v, &sess.heap.borrow()).map_err(|e| e.to_string())?;
+    serde_json::to_string(&sv.to_json()).map_err(|e| e.to_string())
+}
+
+fn check_case(ctx: &Ctx, case: &Case, cfg_name: &str, cfg: &[&str], args: &[&str]) {
+    let mut orig = Session::new();
+    orig.sv_mode = true;
+    for line in cfg {
+        if !orig.run(line).is_ok() {
+            ctx.machinery_error(format!("capture config {} line {:?} failed", cfg_name, line));
+            return;
+        }
+    }
+    let def = format!("f = (x, y) => {}", case.body);
+    let d = orig.run(&def);
+    ctx.count(1);
+    if !d.is_ok() {
+        ctx.outcome("definition-fails-skipped");
+        return;
+    }
+    let viol = |kind: &str, input: String, exp: String, obs: String| {
+        ctx.violation(Violation {
+            kind: kind.to_string(),
+            class: format!("{}|{}", case.class, cfg_name),
+            input,
+            expected: exp,
+            observed: obs,
+            case: json!({"config": cfg, "body": case.body}),
+        });
+    };
+    let text = match catch(|| emit(&orig, "f")) {
+        Ok(Ok(t)) => t,
+        Ok(Err(e)) => {
+            viol("emit-fails", def.clone(), "function is serialisable".into(), e);
+            return;
+        }
+        Err(p) => {
+            viol("emit-panics", def.clone(), "function is serialisable".into(), p);
+            return;
+        }
+    };
+    let j: J = match serde_json::from_str(&text) {
+        Ok(j) => j,
+        Err(e) => {
+            viol("emit-invalid-json", def.clone(), "valid JSON".into(), e.to_string());
+            return;
+        }
+    };
+    let fsrc = j.get("__blots_function").and_then(|s| s.as_str()).unwrap_or("").to_string();
+    // (1) strict: the emitted text is itself a lambda expression
+    let strict = matches!(parse_one(&fsrc).map(|e| e.node), Ok(Expr::Lambda { .. }));
+    if !strict {
+        ctx.violation(Violation {
+            kind: "emitted-text-not-a-lambda".into(),
+            class: if case.root_pipe { "body-root-pipe-chain".into() } else { format!("{}|{}", case.class, cfg_name) },
+            input: def.clone(),
+            expected: "the emitted source, read as one expression, is a function".into(),
+            observed: fsrc.clone(),
+            case: json!({"config": cfg, "body": case.body}),
+        });
+    }
+    // (1') operational: loading it as an input yields a function
+    let mut re = Session::with_inputs(&[("f", j.clone())]);
+    re.sv_mode = true;
+    let ty = re.run("typeof(inputs.f)");
+    if ty != Outcome::Ok("\"function\"".into()) {
+        viol("reload-not-a-function", def.clone(), "typeof(inputs.f) == \"function\"".into(), format!("{:?}   [emitted: {}]", ty, fsrc));
+        return;
+    }
+    // (3) emit the reloaded function again and reload that too
+    let text2 = catch(|| emit_input(&re, "f"));
+    let mut re2 = match &text2 {
+        Ok(Ok(t2)) => match serde_json::from_str::<J>(t2) {
+            Ok(j2) => {
+                let mut s = Session::with_inputs(&[("f", j2)]);
+                s.sv_mode = true;
+                Some(s)
+            }
+            Err(_) => None,
+        },
+        _ => None,
+    };
+    if re2.is_none() {
+        viol("re-emit-fails", def.clone(), "the reloaded function can be emitted again".into(), format!("{:?}", text2));
+    }
+    ctx.nontrivial(&format!("{}|{}", case.body, cfg_name));
+    // (2) behaviour on every argument tuple
+    let mut n_ok = 0;
+    for a in args {
+        for b in args {
+            let o1 = orig.run(&format!("f({}, {})", a, b));
+            let o2 = re.run(&format!("inputs.f({}, {})", a, b));
+            ctx.count(2);
+            if o1.is_ok() {
+                n_ok += 1;
+            }
+            if o1.cmp_key() != o2.cmp_key() {
+                viol(
+                    "behaviour-differs",
+                    format!("{} ;; f({}, {})", def, a, b),
+                    o1.cmp_key(),
+                    format!("{}   [emitted: {}]", o2.cmp_key(), fsrc),
+                );
+                return;
+            }
+            if let Some(r2) = re2.as_mut() {
+                let o3 = r2.run(&format!("inputs.f({}, {})", a, b));
+                ctx.count(1);
+                if o1.cmp_key() != o3.cmp_key() {
+                    viol(
+                        "re-emitted-behaviour-differs",
+                        format!("{} ;; f({}, {})", def, a, b),
+                        o1.cmp_key(),
+                        format!("{}   [first emission: {}]", o3.cmp_key(), fsrc),
+                    );
+                    return;
+                }
+            }
+        }
+    }
+    ctx.outcome(if n_ok > 0 { "function-with-successful-calls" } else { "function-all-calls-fail" });
+}
+
+fn emit_input(sess: &Session, name: &str) -> Result<String, String> {
+    let inputs = sess.env.get("inputs").ok_or("no inputs")?;
+    let heap = sess.heap.borrow();
+    let rec = inputs.as_record(&heap).map_err(|e| e.to_string())?;
+    let v = rec.get(name).ok_or("input missing")?;
+    let sv = SerializableValue::from_value(v, &heap).map_err(|e| e.to_string())?;
+    serde_json::to_string(&sv.to_json()).map_err(|e| e.to_string())
+}
+
+/// The real pipeline `blots p1 | blots p2` for one function.
+fn check_pipeline(ctx: &Ctx, case: &Case, cfg_name: &str, cfg: &[&str], args: &[&str]) {
+    let p1 = format!("{}\noutput f = (x, y) => {}\n", cfg.join("\n"), case.body);
+    let calls: Vec<String> = args.iter().flat_map(|a| args.iter().map(move |b| format!("inputs.f({}, {})", a, b))).collect();
+    // in-process expectation: each call separately (a failing call is skipped in p2)
+    let mut orig = Session::new();
+    orig.sv_mode = true;
+    for line in cfg {
+        orig.run(line);
+    }
+    if !orig.run(&format!("f = (x, y) => {}", case.body)).is_ok() {
+        return;
+    }
+    let mut expected = vec![];
+    let mut ok_calls = vec![];
+    for (call, (a, b)) in calls.iter().zip(args.iter().flat_map(|a| args.iter().map(move |b| (a, b)))) {
+        if let Outcome::Ok(v) = orig.run(&format!("f({}, {})", a, b)) {
+            // only data results can be compared through JSON
+            if !v.contains("fn(") && !v.contains("builtin:") && !v.contains("NaN") && !v.contains("inf") {
+                expected.push(v);
+                ok_calls.push(call.clone());
+            }
+        }
+    }
+    if ok_calls.is_empty() {
+        return;
+    }
+    let r1 = run_blots(&[p1.clone()], None, None);
+    ctx.count(1);
+    if r1.code != Some(0) {
+        ctx.violation(Violation { kind: "pipeline-stage1-fails".into(), class: format!("{}|{}", case.class, cfg_name), input: p1, expected: "exit 0".into(), observed: r1.describe(), case: json!({"config": cfg, "body": case.body}) });
+        return;
+    }
+    let p2 = format!("output r = [{}]", ok_calls.join(", "));
+    let r2 = run_blots(&[p2.clone()], Some(r1.stdout.as_bytes()), None);
+    ctx.count(1);
+    ctx.outcome("pipeline-run");
+    let got = serde_json::from_str::<J>(r2.stdout.trim()).ok().and_then(|j| j.get("r").cloned());
+    let got_canon = got.as_ref().map(|g| canon_sv(&SerializableValue::from_json(g)));
+    let want = format!("[{}]", expected.join(", "));
+    if r2.code != Some(0) || got_canon.as_deref() != Some(want.as_str()) {
+        ctx.violation(Violation {
+            kind: "pipeline-differs".into(),
+            class: format!("{}|{}", case.class, cfg_name),
+            input: format!("blots {:?} | blots {:?}", p1, p2),
+            expected: want,
+            observed: format!("{:?} / {}", got_canon, r2.describe()),
+            case: json!({"config": cfg, "body": case.body}),
+        });
+    }
+}
+
+pub fn run(ctx: &Ctx, replay: Option<&J>) -> i32 {
+    let thorough = !ctx.quick();
+    let args = arg_pool(thorough);
+    if let Some(r) = replay {
+        let cfg: Vec<String> = r["case"]["config"].as_array().map(|a| a.iter().filter_map(|s| s.as_str().map(|s| s.to_string())).collect()).unwrap_or_default();
+        let cfg_refs: Vec<&str> = cfg.iter().map(|s| s.as_str()).collect();
+        let case = Case { body: r["case"]["body"].as_str().unwrap_or("").to_string(), class: "replay".into(), root_pipe: false };
+        check_case(ctx, &case, "replay", &cfg_refs, &arg_pool(true));
+        let mut s = Session::new();
+        for l in &cfg_refs {
+            s.run(l);
+        }
+        s.run(&format!("f = (x, y) => {}", case.body));
+        println!("body: {}\nemitted: {:?}", case.body, emit(&s, "f"));
+        return if ctx.violation_count() > 0 {
+            println!("VIOLATION property=C05 replay=<replayed>");
+            1
+        } else {
+            0
+        };
+    }
+    let mut stats = GenStats::default();
+    let mut kinds = all_kinds();
+    kinds.extend(collision_kinds());
+    let reps: Vec<Kind> = {
+        let mut r = representative_kinds();
+        r.extend(collision_kinds());
+        r
+    };
+    let mut trees: Vec<T> = vec![];
+    for k in &kinds {
+        if k.is_expr {
+            let mut s = LeafSupply::new();
+            trees.push(with_leaves(k, &mut s));
+        }
+    }
+    trees.extend(single_slot(&kinds, &kinds, &mut stats));
+    if thorough {
+        trees.extend(spines(&[kinds.clone(), kinds.clone(), reps.clone()], &mut stats));
+    } else {
+        trees.extend(spines(&[reps.clone(), reps.clone(), reps.clone()], &mut stats));
+    }
+    let mut cases: Vec<Case> = trees
+        .iter()
+        .map(|t| {
+            let st = subst(t);
+            Case { body: st.full(), class: crate::c07::shape_class(t), root_pipe: root_pipe(&st) }
+        })
+        .collect();
+    {
+        let mut seen = std::collections::HashSet::new();
+        cases.retain(|c| seen.insert(c.body.clone()));
+    }
+    let cfgs = capture_configs();
+    // each body under every capture configuration (quick: the configuration is rotated for the
+    // depth-3 spines, all configurations for the rest)
+    let mut jobs: Vec<(usize, usize)> = vec![];
+    for (ci, c) in cases.iter().enumerate() {
+        let deep = c.class.matches('@').count() >= 2;
+        for k in 0..cfgs.len() {
+            if !deep || thorough && k % 4 == ci % 4 || !thorough && k == ci % cfgs.len() {
+                jobs.push((ci, k));
+            }
+        }
+    }
+    par_for_ctx(ctx, jobs.len(), |i| {
+        let (ci, k) = jobs[i];
+        check_case(ctx, &cases[ci], cfgs[k].0, &cfgs[k].1, &args);
+    });
+    // the real pipeline for a spread of functions
+    let pipe_jobs: Vec<(usize, usize)> = jobs.iter().cloned().step_by(jobs.len() / if thorough { 3000 } else { 300 } + 1).collect();
+    par_for_ctx(ctx, pipe_jobs.len(), |i| {
+        let (ci, k) = pipe_jobs[i];
+        check_pipeline(ctx, &cases[ci], cfgs[k].0, &cfgs[k].1, &args[..3]);
+    });
+    ctx.set("bodies", json!(cases.len()));
+    ctx.set("capture_configs", json!(cfgs.iter().map(|c| c.0).collect::<Vec<_>>()));
+    ctx.set("argument_pool", json!(args));
+    ctx.set("function_x_config_cases", json!(jobs.len()));
+    ctx.set("generator", json!({"states": stats.states, "transitions": stats.transitions, "complete_trees": stats.complete}));
+    for c in cases.iter().step_by(cases.len() / 6 + 1) {
+        ctx.sample(json!({"function": format!("f = (x, y) => {}", c.body), "class": c.class}));
+    }
+    ctx.require_outcome("function-with-successful-calls", 1000);
+    ctx.require_outcome("function-all-calls-fail", 10);
+    ctx.require_outcome("pipeline-run", 20);
+    ctx.assume("only functions whose free names are parameters, captured values or built-ins are generated (closed after capture); self-recursive and late-bound functions are outside the statement");
+    finish(
+        ctx,
+        "exploration",
+        "function bodies = every node kind alone, every parent x child kind in every slot, depth-3 spines (plus binder-collision kinds: inner parameter / do-local / shorthand named like a captured name, postfix on captured values) over typed leaves x, y, captured c, d, literals; x 12 capture configurations (negative, NaN, infinities, -0, strings with both quote kinds / backslash / newline, nested list, record with quoted keys, closures with their own captures, built-ins) x all argument pairs from a 6/11-value pool; original vs from_json(to_json(f)) reloaded into a fresh heap vs re-emitted-and-reloaded; real `blots p1 | blots p2` for a spread; distinct = distinct (body, configuration) pairs whose definition evaluates",
+        true,
+        None,
+    )
 }
